@@ -1,8 +1,12 @@
 //! The checks, one module per property.
 use crate::framework::CheckDef;
 
+pub mod c25;
 pub mod c26;
+pub mod c27;
 
 pub fn register(v: &mut Vec<CheckDef>) {
+    v.push(c25::def());
     v.push(c26::def());
+    v.push(c27::def());
 }
